@@ -90,13 +90,19 @@ theorem entityPool_cap_eq (P : Pool) : entityPool_Cap (ofPool P) = P.cap := by
 
 /-! ### `bitPool` (the lock bits): the model's `BitPool` has the Go field names -/
 
-theorem bitPool_get_eq (p : BitPool) : bitPool_Get p = p.get := by
+/-- `Get`: a fresh bit (panic at 64), or the head of the free chain.  The hypothesis — the head of a
+    non-empty free chain is a position of the array, part of `Lock.LInv` — is not needed for the
+    source as it is; it makes the equality independent of whether the code returns `p.bits[curr]`
+    (after `p.bits[curr] = curr`) or `curr` itself, which differ only where Go panics. -/
+theorem bitPool_get_eq (p : BitPool) (hn : p.available ≠ 0 → p.next < p.bits.length) :
+    bitPool_Get p = p.get := by
   unfold bitPool_Get bitPool_getNew BitPool.get
   by_cases h : p.available = 0
   · have h' : (p.available == 0) = true := by simpa using h
     by_cases h2 : p.length ≥ 64 <;> simp [h, h2]
   · have h' : (p.available == 0) = false := by simpa using h
-    simp [h, h']
+    have hlt := hn h
+    simp [h, h', List.getD_eq_getElem?_getD, List.getElem?_set_self hlt]
 
 theorem bitPool_recycle_eq (p : BitPool) (b : Nat) : bitPool_Recycle p b = p.recycle b := by
   simp [bitPool_Recycle, BitPool.recycle]
